@@ -90,8 +90,8 @@ def core_helpers(rep):
     check_helper(rep, "kronecker_delta4", [], "R[A,B] = delta(A,B)", {}, "4")
     F = sym2("F")
     check_helper(rep, "s_to_st", [F], lambda cfg: (
-        "R[i+1,j+1] = F[i,j]" if not any(cfg.get("in:" + k) for k in
-                                         ("betaup3", "betax", "betay", "betaz")) else
+        "R[i+1,j+1] = F[i,j]" if all(cfg.get("in:" + k) is False for k in
+                                     ("betaup3", "betax", "betay", "betaz")) else
         "R[i+1,j+1] = F[i,j]; R[0,0] = betaup3[i]*betaup3[j]*F[i,j]; "
         "R[0,k+1] = betaup3[i]*F[i,k]; R[k+1,0] = betaup3[i]*F[i,k]"), {"F": F}, "generic")
 
@@ -211,6 +211,41 @@ def raw_division_rule(rep):
         raise AnalysisError("raw-division: fewer than 3 division sites found in core.py")
 
 
+def component_bypass(rep):
+    """A quantity offered both as a tensor T and as scalar components c (the table
+    aurel_tensor_to_scalar) must give one value however it was supplied.  Either each
+    component method derives c from a supplied T (a guard `'T' in self.data` projecting T), or
+    nothing but T's own assembly reads the components; otherwise a method reading c directly
+    ignores a supplied T and the different index positions of the same tensor disagree."""
+    from . import c01
+    S = rep.sources
+    meths = c01.methods(S)
+    table = S.yaml("data/var_mappings.yml")["aurel_tensor_to_scalar"]
+    n = 0
+    for T, comps in table.items():
+        if T not in meths or not all(c in meths for c in comps):
+            continue      # input-only components (Weyl_Psi4r/i)
+        guarded = all(c01.pure_projection(meths[c], T, guarded=True) for c in comps)
+        projected = all(c01.pure_projection(meths[c], T, guarded=False) for c in comps)
+        if guarded or projected:
+            n += 1
+            rep.ok("component-bypass", f"{CORE}::tensor({T})",
+                   {"components": "derived from the tensor when it is supplied"})
+            continue
+        for name, fn in meths.items():
+            if name == T or name in comps or name in c01.PROTOCOL:
+                continue
+            direct = sorted(c01.reads_of(fn) & set(comps))
+            n += 1
+            rep.check(not direct, "component-bypass", f"{CORE}::AurelCore.{name}::reads({T})",
+                      f"{name}() reads the components {direct} directly; they are not derived "
+                      f"from `{T}`, so a `{T}` supplied as a vector/tensor is ignored here and "
+                      f"{name} disagrees with the other index positions of the same quantity",
+                      node=fn)
+    if n < 5:
+        raise AnalysisError("component-bypass: tensor/component table not matched")
+
+
 def run(rep):
     rep.explanation = (
         "Obligations discharged in exact arithmetic: determinant3/4 and inverse3/4 vs the "
@@ -231,6 +266,7 @@ def run(rep):
     levicivita(rep)
     safe_division_rule(rep)
     raw_division_rule(rep)
+    component_bypass(rep)
     rep.floor("reference-agreement", 60)
     rep.floor("division-guard", 3)
     rep.floor("riemann-table", 3)
